@@ -28,7 +28,9 @@ RULE = ("1-6 materials drawn (with repeats) from 1-4 generated compounds (flat d
         "otherwise; zero total weight or zero density -> all three equal 0. Then 1-3 further calls of the SAME "
         "calculator with the SAME weights ndarray modified in place (set an element, scale, zero one/all) or with only "
         "the density changed, each judged against the direct calculation for the current values; the library must not "
-        "modify the weights/wavelength arguments. non-trivial = (>= 2 materials with a zero "
+        "modify the weights/wavelength arguments; every array returned by an earlier call must still equal the copy taken "
+        "when it was returned, and outputs of different calls, the three components of one result and the caller's "
+        "arrays must not share memory. non-trivial = (>= 2 materials with a zero "
         "weight among them) or (sigma_s - sigma_c clips at 0 at some wavelength) or (energy dependent atom with vector "
         "wavelength of length >= 2) or an in-place weight change in the sequence; distinct by (materials, weights, density, wavelength, steps).")
 ASSUMPTIONS = [
@@ -170,6 +172,9 @@ def check_composite(ctx, v):
     with unchanged("c17", case, wavelength=arg, weights=weights):
         calc = nsf.neutron_composite_sld(mats, wavelength=arg)
         got = calc(weights, density=rho)
+    keep = ng.Retained("c17", case, foreign=[("weights", weights), ("wavelength", arg)])
+    if isinstance(got, tuple):
+        keep.add("call 1", list(zip(SLD, got)))
     clips, zero = judge("call 1", mats, comps, got, weights, rho, arg, shape, lams, case)
 
     nt = (len(mats) >= 2 and any(x == 0 for x in w)) or clips or (edep and len(lams) >= 2 and shape != ()) \
@@ -189,16 +194,22 @@ def check_composite(ctx, v):
         rho_k = apply_step(np, weights, rho_k, step)
         with unchanged("c17", case, wavelength=arg, weights=weights):
             got_k = calc(weights, density=rho_k)
+        if isinstance(got_k, tuple):
+            keep.add("call %d" % (n + 2), list(zip(SLD, got_k)))
         judge("call %d (after %r on the same weights array)" % (n + 2, step), mats, comps, got_k, weights, rho_k,
               arg, shape, lams, case)
 
     # a fresh array with the first weights gives the first answer again
     if not zero:
+        first = [np.array(x, copy=True) for x in got]
         got1 = calc(np.array(w, dtype=weights.dtype), density=rho)
+        keep.add("the final call", list(zip(SLD, got1)))
+        got = tuple(first)                  # what call 1 returned, as it was when returned
         for o, a, b in zip(SLD, got, got1):
             if not bool(np.all(np.asarray(a) == np.asarray(b))):
                 raise Violation("c17:stateful", "%s differs between the first call and a later call with equal "
                                 "weights and density: %r then %r" % (o, a, b), case)
+    keep.verify("at the end of the sequence")
 
 
 def strat():
